@@ -89,9 +89,9 @@ func hooks(s *simrt.Sim, pooled bool) {
 	// a permanent plain hook attached before everything else
 	base := mkHook("base", 0, false)
 	nextArg := 0
-	nact := 2 + s.Choose(3)
+	nact := 2 + s.Choose(simrt.Bound(3, 4))
 	for a := 0; a < nact; a++ {
-		n := 1 + s.Choose(4)
+		n := 1 + s.Choose(simrt.Bound(4, 6))
 		type spec struct{ kind, max, target int }
 		specs := make([]spec, n)
 		for i := range specs {
@@ -446,7 +446,7 @@ func notifier(s *simrt.Sim) {
 	ctx, cancel := context.WithCancel(context.Background())
 	nact := 1 + s.Choose(3)
 	for a := 0; a < nact; a++ {
-		k := 1 + s.Choose(5)
+		k := 1 + s.Choose(simrt.Bound(5, 8))
 		type spec struct{ kind, val, target int }
 		specs := make([]spec, k)
 		for i := range specs {
